@@ -77,9 +77,29 @@ def main():
     finally:
         sh(["git", "-C", "/repo", "worktree", "remove", "--force", str(wt)])
         shutil.rmtree(wt.parent, ignore_errors=True)
-    # run the checks against /repo with the patch applied
+    # run the checks against the change
     det = {}
-    if result.get("patch_applies"):
+    if result.get("patch_applies") and "--scratch" in args:
+        # /repo is busy (a long run reads it): the patch is applied in a second scratch worktree and the
+        # checks are pointed at that tree (VERIF_REPO); same code, same checks, /repo untouched
+        wt2 = Path(tempfile.mkdtemp(prefix="seedwt2-", dir="/tmp")) / "wt"
+        ev = tempfile.mkdtemp(prefix="seed-evidence-", dir="/dev/shm")
+        try:
+            sh(["git", "-C", "/repo", "worktree", "add", "--detach", str(wt2), "HEAD", "-q"])
+            sh(["git", "-C", str(wt2), "apply", str(out_dir / "patch.diff")])
+            for c in checks:
+                r = sh(["./check", c, "--tier", tier], cwd=str(VERIF),
+                       env=dict(os.environ, VERIF_EVIDENCE_DIR=ev, VERIF_REPO=str(wt2)), timeout=7200)
+                lines = [l for l in r.stdout.split("\n") if l.startswith(("VIOLATION", "  unlisted"))]
+                det[c] = {"exit": r.returncode, "tier": tier, "detected": r.returncode == 1, "run_against": "scratch worktree (VERIF_REPO)",
+                          "classes": [l.strip()[:200] for l in lines][:8]}
+                if r.returncode not in (0, 1):
+                    det[c]["stderr"] = r.stderr[-600:]
+        finally:
+            sh(["git", "-C", "/repo", "worktree", "remove", "--force", str(wt2)])
+            shutil.rmtree(wt2.parent, ignore_errors=True)
+            shutil.rmtree(ev, ignore_errors=True)
+    elif result.get("patch_applies"):
         if sh("git -C /repo diff --quiet").returncode != 0:
             raise SystemExit("/repo has uncommitted changes; refusing to apply a seed")
         ev = tempfile.mkdtemp(prefix="seed-evidence-", dir="/dev/shm")
